@@ -1,8 +1,10 @@
-(* C09 - planSucceeded / planFailed are delivered exactly when warranted. Theorems only. plan_st c = strongest of the cycle's task status and the active state's latched report (failure over success); outcome_post m st ... = exactly one delivery of m to the root, afterwards the plan is empty and every report bit below n is clear. *)
+(* C09 - planSucceeded / planFailed are delivered exactly when warranted. Theorems only. plan_st c = strongest of the
+   cycle's task status and the active state's latched report (failure over success); outcome_post m st ... = exactly
+   one delivery of m to the root, afterwards the plan is empty and every report bit below n is clear. *)
 From Coq Require Import List Arith Bool NArith.
 From FFSM2 Require Import Model.TaskList Model.BitArray Model.BitStream Model.Plan Model.Ancestors Model.Machine
   Proofs.BitArrayProofs Proofs.MachineFrame Proofs.MachinePlan Proofs.MachineLife Proofs.GuardProofs Proofs.CycleProofs Proofs.PlanStep
-  Proofs.SerialProofs Proofs.LogProofs Proofs.MachineTop.
+  Proofs.SerialProofs Proofs.LogProofs Proofs.MachineTop Model.Multi Generated.InitFacts Proofs.ConstructProofs Proofs.LifeMonitor Proofs.ActivationRounds Proofs.IndexSafety Proofs.FeatureProofs.
 Import ListNotations.
 
 (* no status or no plan ever created: nothing happens *)
@@ -104,7 +106,8 @@ Theorem C09_failure_delivered :
 Proof. exact (failure_delivered). Qed.
 Print Assumptions C09_failure_delivered.
 
-(* planExists becomes true only through an append: on a machine to which no task has been added neither callback is ever delivered *)
+(* planExists becomes true only through an append: on a machine to which no task has been added neither callback is
+   ever delivered *)
 Theorem C09_exists_only_by_append :
   forall (P : Type) (cfg : config) (orc : oracle P),
          (forall (t : list (event P)) (w : who) (r : recipient) (m : method) (v : view P),
